@@ -97,6 +97,7 @@ theorem emptyTest_none {c0 : COpts} {t : GoType} {v : GoVal} {f : Field} (hC : C
     | cons x r => simp [isEmptyV]
   case st.st => simp [isEmptyV]
   case lib.st => simp [isEmptyV]
+  case lib.lib => simp [isEmptyV]
 
 /-! ### the resolver's field list is aligned with the declaration -/
 
